@@ -6,6 +6,7 @@ import (
 	"go/token"
 	"go/types"
 	"sort"
+	"strings"
 
 	"golang.org/x/tools/go/callgraph"
 	"golang.org/x/tools/go/callgraph/cha"
@@ -385,6 +386,12 @@ func (cg *CG) reaches(from *types.Func, to map[*types.Func]bool, skip map[*types
 		sort.Slice(nx, func(i, j int) bool { return nx[i].FullName() < nx[j].FullName() })
 		for _, n := range nx {
 			if _, ok := prev[n]; ok || skip[n] {
+				continue
+			}
+			// the question is what this repository's code can reach; a walk that enters a dependency
+			// (gRPC's server machinery, say) comes back out at every handler the server registers, which
+			// says nothing about the function asked about. Dependencies are leaves, as in the quick tier.
+			if !to[n] && (n.Pkg() == nil || !strings.HasPrefix(n.Pkg().Path(), modPath)) {
 				continue
 			}
 			prev[n] = f
